@@ -1,4 +1,6 @@
 """C08 — SQL -> Relation -> SQL preserves query results (see lib/relengine.py)."""
+import json
+
 import relengine
 
 PID = "C08"
@@ -58,13 +60,97 @@ def special_part(rep, tier):
             "compared": sum(1 for r in recs if r.get("cmp") == 1), "outcomes": {s[:60]: recs[k * len(DBS)]["outcome"] + ":" + str(recs[k * len(DBS)].get("stage", "")) for k, s in enumerate(SPECIAL)}}
 
 
+def _show(t):
+    if t["k"] in ("col", "val", "unbound"):
+        return t["n"]
+    return t["n"] + "(" + ",".join(_show(x) for x in t["a"]) + ")"
+
+
+def _shape(t):
+    """the term with column names and literals erased: the key of a finding is the shape of the SELECT item"""
+    if t["k"] in ("col", "val", "unbound"):
+        return t["k"]
+    return t["n"] + "(" + ",".join(_shape(x) for x in t["a"]) + ")"
+
+
+def split_part(rep, tier):
+    """spec/Split.tla: the SELECT-list compiler `Split::and` (src/expr/split.rs) as a state machine.  TLC checks that the
+    reference three-layer compilation satisfies the judges in every reachable state (RefSound) and that the judges refuse a
+    chain that forgets the grouping or swaps two outputs (RefTight*); every reachable state is then compiled by the real
+    `Split::and`, driven like sql/relation.rs drives it (`sp-replay`), and TLC evaluates the same judges on the real chain."""
+    import copy
+    import os
+    import common as C
+    runs = [("small", {"MaxG": "1", "MaxOuts": "1"})]
+    if tier == "thorough":
+        runs.append(("two_items", {"Cols": '{"a"}', "MaxG": "1", "MaxOuts": "2", "WithWhere": "FALSE"}))
+        runs.append(("two_groups", {"Lits": "{}", "MaxG": "2", "MaxOuts": "1", "WithWhere": "FALSE"}))
+    else:
+        runs.append(("two_items", {"Cols": '{"a"}', "Lits": "{}", "MaxG": "1", "MaxOuts": "2"}))
+    cases, states, seen = [], 0, set()
+    for name, consts in runs:
+        r = C.tlc("MC_Split", "MC_Split.cfg", "split_" + name, workers=8, timeout=1500, constants=consts)
+        C.require_model_ok(r, f"Split.tla ({name})")
+        states += r.distinct
+        for c in r.json_payloads("REPLAY"):
+            k = json.dumps(c, sort_keys=True)
+            if k not in seen:
+                seen.add(k)
+                cases.append(c)
+    wd = C.workdir("split")
+    cp, op, cq, oq = (os.path.join(wd, f) for f in ("cases.ndjson", "obs.ndjson", "cases_sql.ndjson", "obs_sql.ndjson"))
+    # binding 1: `Split::and` alone, driven like sql/relation.rs drives it (the states without WHERE: Split has no such action)
+    C.write_ndjson(cp, [c for c in cases if not c["where"]])
+    C.qv(["sp-replay"], stdin_path=cp, stdout_path=op, timeout=1800)
+    # binding 2: the same states as SQL text through the real entry point (parser, Split, Map / Reduce builders); the layers
+    # are read back from the Relation that was built
+    C.write_ndjson(cq, cases)
+    C.qv(["sp-sql"], stdin_path=cq, stdout_path=oq, timeout=1800)
+    obs = [dict(o, engine="sp-replay", where=[]) for o in C.read_ndjson(op)] + [dict(o, engine="sp-sql") for o in C.read_ndjson(oq)]
+    recs = [{"groups": o["groups"], "outs": o["outs"], "where": o["where"], "status": o["status"], "chain": o["chain"]} for o in obs]
+    _, fails, _ = C.validate_trace_chunked("Trace_Split", "Trace_Split.cfg", recs, wd, "split_judge", chunk=8000, parallel=4)
+    for i, judge in fails:
+        o = obs[i - 1]
+        shapes = sorted({_shape(x["t"]) for x in o["outs"]})
+        rep.fail(f"Split/{judge}/{o['engine']}/{'grouped' if o['groups'] else 'ungrouped'}/{shapes[0] if len(shapes) == 1 else '+'.join(shapes)}"[:200],
+                 f"judge {judge} failed on the layers built by the real code ({o['engine']})",
+                 {"engine": o["engine"], "sql": o.get("sql"), "group_by": [_show(g) for g in o["groups"]], "select": [[x["n"], _show(x["t"])] for x in o["outs"]],
+                  "where": [_show(w) for w in o["where"]], "message": o.get("panic"),
+                  "real_chain": [{"kind": L["kind"], "defs": [[d["n"], _show(d["t"])] for d in L["defs"]], "groups": L["groups"], "filter": [_show(f) for f in L["filter"]]} for L in o["chain"]],
+                  "case": {"groups": o["groups"], "outs": o["outs"], "where": o["where"]}})
+    # binding self-test: a real three-layer chain whose grouping is forgotten / whose top reads a column the Reduce does not define
+    good = next((x for x in recs if x["status"] == "ok" and x["groups"] and len(x["chain"]) == 3 and x["chain"][1]["defs"]), None)
+    if good is None:
+        raise C.ToolError("split binding self-test: no grouped three-layer chain among the observations")
+    a = copy.deepcopy(good); a["chain"][1]["groups"] = []
+    b = copy.deepcopy(good); b["chain"][1]["defs"] = b["chain"][1]["defs"][1:]
+    w = copy.deepcopy(next(x for x in recs if x["status"] == "ok" and x["where"] and len(x["chain"]) == 3))
+    w["chain"][0]["filter"], w["chain"][2]["filter"] = w["chain"][2]["filter"], []
+    sp = os.path.join(wd, "selftest.ndjson")
+    C.write_ndjson(sp, [a, b, w])
+    _, f2, _ = C.validate_trace("Trace_Split", "Trace_Split.cfg", sp, "split_selftest")
+    if not ((1, "GroupsDenote") in set(f2) and any(i == 2 and j in ("Closed", "DenotesOuts") for i, j in f2) and (3, "FilterDenotes") in set(f2)):
+        raise C.ToolError(f"split binding self-test failed: {f2}")
+    return {"model_states": states, "configurations": [n for n, _ in runs], "states_compiled_by_real_split": sum(1 for o in obs if o["engine"] == "sp-replay"),
+            "states_compiled_from_sql_text": sum(1 for o in obs if o["engine"] == "sp-sql"), "refused_with_error": sum(1 for o in obs if o["status"] == "error"),
+            "real_panics": sum(1 for o in obs if o["status"] == "panic"), "layers_judged": sum(len(o["chain"]) for o in obs),
+            "judges": ["SplitPanics", "Alternates", "MapsPure", "ReducesShaped", "NoNameClash", "Closed", "DenotesOuts", "NoExtraOutputs", "GroupsDenote", "ReduceIffAggregated", "FilterDenotes", "Refused"],
+            "model_invariants": ["TypeOK", "RefSound", "RefTight", "RefTight2", "RefTight3"],
+            "binding_selftest": {"forgotten_grouping_flagged": True, "undefined_column_flagged": True, "hoisted_where_flagged": True}}
+
+
+def both_parts(rep, tier):
+    return {"hand_written": special_part(rep, tier), "split_state_machine": split_part(rep, tier)}
+
+
 def run(tier, t0):
     return relengine.report(PID, tier, t0, [
         "hand-written queries (lib/props/c08.py SPECIAL) cover scoping corners outside the generator: they are judged like the others but are not enumerated by TLC",
         "SQLite 3.40 as the executor of original and rendered SQL (UDFs of harness/src/sqlx.rs)",
         "rank encoding of values and bounds (lib/relenc.py); TLC decides containment",
         "generated fragment: spec/QueryShapes.tla over two tables, values 0..2, NULL, three strings",
-    ], extra=special_part)
+        "spec/Split.tla: terms of depth <= 2 over two columns, one literal, Opposite / Plus / Sum; the chain is compared with the SELECT list modulo first(x) = x",
+    ], extra=both_parts)
 
 
 def replay(path):
